@@ -71,6 +71,7 @@
 #include <memory>
 #include <algorithm>
 #include <sys/stat.h>
+#include <sys/wait.h>
 
 using namespace vf;
 
@@ -947,12 +948,15 @@ static bool cmpAMesh(const std::string& cls, const AMesh& x, const AMesh& y, Ctx
   int ndim = x.getNDim(), nc = x.getNApexPerMesh();
   for (int im = 0; im < x.getNMeshes(); im++)
     for (int r = 0; r < nc; r++) CHECK_EQ_INT(cls, "apex", x.getApex(im, r), y.getApex(im, r));
+  // turbo apices are computed from the grid geometry (origin + rotated offsets): the 1e-15 of the format
+  // applies to the largest coordinate, not to each (possibly cancelling) component
+  double scale = 0;
+  for (int ia = 0; ia < x.getNApices(); ia++)
+    for (int d = 0; d < ndim; d++) scale = std::max(scale, std::fabs(x.getApexCoor(ia, d)));
   for (int ia = 0; ia < x.getNApices(); ia++)
     for (int d = 0; d < ndim; d++)
     {
       double a = x.getApexCoor(ia, d), b = y.getApexCoor(ia, d);
-      // turbo apices are computed from the grid geometry: allow the accumulated rounding of nx*dx
-      double scale = std::max(std::fabs(a), std::fabs(b));
       if (!eqv(a, b) && std::fabs(a - b) > 1e-13 * std::max(scale, 1e-300))
       {
         ctx.fail(cls + ":query:apex-coordinate", fmt("apex %d axis %d: %.17g before, %.17g after reload", ia, d, a, b));
@@ -972,7 +976,13 @@ static bool cmpAMesh(const std::string& cls, const AMesh& x, const AMesh& y, Ctx
   for (int d = 0; d < ndim; d++)
   {
     VectorDouble ex = x.getExtrema(d), ey = y.getExtrema(d);
-    if (!sameVecD(cls, "extrema", ex, ey, ctx, ":query:", 1e-13)) return false;
+    if (ex.size() != ey.size()) { ctx.fail(cls + ":query:extrema", "bounding box of different sizes"); return false; }
+    for (size_t k = 0; k < ex.size(); k++)
+      if (!eqv(ex[k], ey[k]) && std::fabs(ex[k] - ey[k]) > 1e-13 * scale)
+      {
+        ctx.fail(cls + ":query:extrema", fmt("axis %d bound %d: %.17g before, %.17g after reload", d, (int)k, ex[k], ey[k]));
+        return false;
+      }
   }
   return true;
 }
@@ -1084,6 +1094,29 @@ static DbMeshCase genDbMesh()
   c.m.fo = genFOpt();
   return c;
 }
+// DbMeshStandard's default constructor (used by createFromNF) divides by zero: observed once in a child process,
+// because it kills the process (SIGFPE in the plain build, UBSan abort here)
+static bool dbMeshStandardCtorDies()
+{
+  static int cached = -1;
+  if (cached < 0)
+  {
+    fflush(nullptr);
+    pid_t p = fork();
+    if (p == 0)
+    {
+      stats().outPrefix.clear();
+      int nul = open("/dev/null", O_WRONLY);
+      if (nul >= 0) { dup2(nul, 2); dup2(nul, 1); }
+      DbMeshStandard* d = new DbMeshStandard();
+      _exit(d != nullptr ? 0 : 1);
+    }
+    int st = 0;
+    if (p < 0 || waitpid(p, &st, 0) < 0) cached = 0;
+    else cached = (WIFEXITED(st) && WEXITSTATUS(st) == 0) ? 0 : 1;
+  }
+  return cached == 1;
+}
 static void runDbMesh(const DbMeshCase& c, Ctx& ctx)
 {
   Hash h;
@@ -1108,11 +1141,14 @@ static void runDbMesh(const DbMeshCase& c, Ctx& ctx)
       int nd = a.getNDim();
       for (int im = 0; im < a.getNMeshes(); im++)
         for (int r = 0; r <= nd; r++) CHECK_EQ_INT(cls, "apex", a.getApex(im, r), b.getApex(im, r));
+      double scale = 0;
+      for (int ia = 0; ia < a.getNApices(); ia++)
+        for (int d = 0; d < nd; d++) scale = std::max(scale, std::fabs(a.getApexCoor(ia, d)));
       for (int ia = 0; ia < a.getNApices(); ia++)
         for (int d = 0; d < nd; d++)
         {
           double u = a.getApexCoor(ia, d), v = b.getApexCoor(ia, d);
-          if (!eqv(u, v, 1e-13)) { cx.fail(cls + ":query:apex-coordinate", fmt("apex %d axis %d: %.17g before, %.17g after reload", ia, d, u, v)); return false; }
+          if (!eqv(u, v) && std::fabs(u - v) > 1e-13 * scale) { cx.fail(cls + ":query:apex-coordinate", fmt("apex %d axis %d: %.17g before, %.17g after reload", ia, d, u, v)); return false; }
         }
       CHECK_EQ_INT(cls, "consistent", a.isConsistent(), b.isConsistent());
       return cmpGridPart(cls, a, b, cx) && cmpDbPart(cls, a, b, cx);
@@ -1126,6 +1162,11 @@ static void runDbMesh(const DbMeshCase& c, Ctx& ctx)
   {
     resetGlobals(c.m.ndim);
     ctx.label("class:DbMeshStandard");
+    if (dbMeshStandardCtorDies())
+    {
+      ctx.fail("DbMeshStandard:default-ctor-crash", "new DbMeshStandard() (what createFromNF starts with) kills the process: MeshEStandard::reset divides by ndim = 0");
+      return;
+    }
     ctx.at("DbMeshStandard:build");
     // the table given to the constructor replaces the columns: it holds the coordinates too
     VectorDouble tab = toVD(c.m.apices);
@@ -1160,5 +1201,324 @@ static void runDbMesh(const DbMeshCase& c, Ctx& ctx)
   ctx.sig = h.h;
 }
 VERIF_SUB(dbmesh, DbMeshCase, genDbMesh, runDbMesh);
+
+// ====================================================================== Model ============
+struct Adm
+{
+  int ecov = 0;
+  std::string key;
+  bool hasParam = false;
+  double parMax = 0;
+  int hasRange = 1;
+};
+// structures which the library accepts in R^ndim: asked from the library itself
+static const std::vector<Adm>& admitted(int ndim)
+{
+  static std::vector<Adm> cache[4];
+  static bool done[4] = {false, false, false, false};
+  if (!done[ndim])
+  {
+    done[ndim] = true;
+    for (int v = 0; v <= 60; v++)
+    {
+      if (!ECov::existsValue(v)) continue;
+      const ECov& e = ECov::fromValue(v);
+      if (e == ECov::FUNCTION) continue; // carries a user function: no representation in a file
+      ACovFunc* f = nullptr;
+      try
+      {
+        CovContext ctxt(1, ndim);
+        f = CovFactory::createCovFunc(e, ctxt);
+      }
+      catch (const LibExit&) { f = nullptr; }
+      catch (const std::exception&) { f = nullptr; }
+      if (f == nullptr) continue;
+      bool ok = f->hasCovOnRn() && f->getCompatibleSpaceR() && !((int)f->getMaxNDim() > 0 && ndim > (int)f->getMaxNDim());
+      if (ok)
+      {
+        Adm a;
+        a.ecov = v;
+        a.key = std::string(e.getKey());
+        a.hasParam = f->hasParam();
+        a.parMax = f->getParMax();
+        a.hasRange = f->hasRange();
+        cache[ndim].push_back(a);
+      }
+      delete f;
+    }
+  }
+  return cache[ndim];
+}
+struct StructCase
+{
+  int type = 1;
+  double pu = 1;   // position of the third parameter in (0, min(parMax,5)]
+  int aniso = 0;   // 0 isotropic, 1 anisotropic, 2 anisotropic + rotation
+  double range = 1;
+  std::vector<double> ratio; // 3 values in (0,1], one of them 1
+  std::vector<double> ang;   // 3
+  std::vector<double> A;     // 3x3: sill = A A' + eps I
+  double eps = 0;
+  template<class Ar> void io(Ar& a) { a("type", type)("pu", pu)("aniso", aniso)("range", range)("ratio", ratio)("ang", ang)("A", A)("eps", eps); }
+};
+struct ModelCase
+{
+  int ndim = 2, nvar = 1;
+  std::vector<StructCase> st;
+  int order = -1; // -1: no drift (means are stored), else IRF order
+  int nfex = 0;
+  std::vector<double> means;  // nvar
+  std::vector<double> covar0; // nvar*nvar (symmetric) or empty
+  double field = 1;
+  bool setField = false;
+  std::vector<double> lags;   // queries: nq * ndim
+  FOpt fo;
+  template<class Ar> void io(Ar& a)
+  {
+    a("ndim", ndim)("nvar", nvar)("st", st)("order", order)("nfex", nfex)("means", means)("covar0", covar0)("field", field)("setField", setField)("lags", lags)("fo", fo);
+  }
+};
+static ModelCase genModel()
+{
+  ModelCase c;
+  c.ndim = G::i(1, 3);
+  c.nvar = G::i(1, 3);
+  const auto& adm = admitted(c.ndim);
+  int ns = G::pct(4) ? 0 : G::sz(1, 3);
+  // extreme magnitudes for the model as a whole; the ranges of one model stay within 3 decades so that the
+  // queries (lags up to the largest range) keep h/a below what the special functions of the library accept
+  double base = genPos(1e-3, 1e7);
+  for (int k = 0; k < ns; k++)
+  {
+    StructCase s;
+    s.type = adm[(size_t)G::i(0, (int)adm.size() - 1)].ecov;
+    if (G::pct(35)) s.type = G::pick<int>({ECov::NUGGET.getValue(), ECov::SPHERICAL.getValue(), ECov::EXPONENTIAL.getValue(), ECov::MATERN.getValue(), ECov::CUBIC.getValue()});
+    s.pu = G::u(0.02, 1.);
+    s.aniso = (c.ndim == 1) ? 0 : G::i(0, 2);
+    s.range = base * genPos(1e-2, 10.);
+    int one = G::i(0, 2);
+    for (int i = 0; i < 3; i++)
+    {
+      double r = (i == one) ? 1. : (G::pct(15) ? 1. : (G::b() ? G::u(0.01, 1.) : strtod(fmt("%.15g", 0.01 + 0.99 * genFull01()).c_str(), nullptr)));
+      s.ratio.push_back(r);
+      s.ang.push_back(genAngle());
+    }
+    for (int i = 0; i < 9; i++) s.A.push_back(G::pct(20) ? 0. : genVal(0));
+    for (auto& v : s.A) if (std::fabs(v) > 1e6 || (v != 0 && std::fabs(v) < 1e-6)) v = G::r(-10, 10, 8);
+    s.eps = G::pick<double>({0., 0.5, 1e-3});
+    c.st.push_back(s);
+  }
+  c.order = G::pct(45) ? -1 : G::i(0, 2);
+  c.nfex = (c.order >= 0 && G::pct(40)) ? G::i(1, 2) : 0;
+  for (int i = 0; i < c.nvar; i++) c.means.push_back(G::pct(30) ? 0. : genVal(0));
+  if (G::pct(50))
+  {
+    c.covar0.assign((size_t)(c.nvar * c.nvar), 0.);
+    for (int i = 0; i < c.nvar; i++)
+      for (int j = 0; j <= i; j++)
+      {
+        double v = genVal(0);
+        c.covar0[(size_t)(i * c.nvar + j)] = c.covar0[(size_t)(j * c.nvar + i)] = v;
+      }
+  }
+  c.setField = G::pct(50);
+  c.field = genPos(1e-3, 1e6);
+  int nq = 6;
+  for (int q = 0; q < nq; q++)
+    for (int d = 0; d < c.ndim; d++) c.lags.push_back(G::b() ? G::u(-1., 1.) : G::u(-0.1, 0.1)); // in units of the largest range
+  c.fo = genFOpt();
+  return c;
+}
+static bool buildModel(const ModelCase& c, std::unique_ptr<Model>& m, Ctx& ctx, double& maxRange)
+{
+  CovContext cctxt(c.nvar, c.ndim);
+  m.reset(Model::create(cctxt));
+  if (!m) return false;
+  if (c.setField) m->setField(c.field);
+  maxRange = 0;
+  for (const auto& s : c.st)
+  {
+    const Adm* a = nullptr;
+    for (auto& ad : admitted(c.ndim)) if (ad.ecov == s.type) a = &ad;
+    if (a == nullptr) continue; // (a shrunk or hand-edited case)
+    ECov type = ECov::fromValue(s.type);
+    double param = 1.;
+    if (a->hasParam)
+    {
+      double P = a->parMax;
+      if (P <= 0 || P > 1e29) P = 100.;
+      param = std::min(P, 5.) * s.pu;
+      param = strtod(fmt("%.16g", param).c_str(), nullptr);
+    }
+    VectorDouble sills;
+    for (int i = 0; i < c.nvar; i++)
+      for (int j = 0; j < c.nvar; j++)
+      {
+        double v = 0;
+        for (int r = 0; r < 3; r++) v += s.A[(size_t)(i * 3 + r)] * s.A[(size_t)(j * 3 + r)];
+        sills.push_back(v + ((i == j) ? s.eps : 0.));
+      }
+    VectorDouble ranges, angles;
+    for (int d = 0; d < c.ndim; d++) ranges.push_back(s.aniso == 0 ? s.range : s.range * s.ratio[(size_t)d]);
+    if (c.ndim >= 2 && s.aniso == 2)
+      for (int d = 0; d < c.ndim; d++) angles.push_back(s.ang[(size_t)d]);
+    if (a->hasRange != 0)
+    {
+      // ranges whose scale falls below the library's own floor are a documented rejection
+      double scadef = CovFactory::getScaleFactor(type, param);
+      double mn = ranges[0];
+      for (double r : ranges) mn = std::min(mn, r);
+      if (!std::isfinite(scadef) || !(scadef > 0) || !(mn / scadef > 1e-9) || !(mn > 1e-9)) { ctx.label("degenerate-range"); continue; }
+    }
+    ctx.at("Model:addCov:" + a->key);
+    int before = m->getCovaNumber();
+    if (s.aniso == 0)
+      m->addCovFromParam(type, s.range, 0., param, VectorDouble(), sills, VectorDouble(), true);
+    else
+      m->addCovFromParam(type, 0., 0., param, ranges, sills, angles, true);
+    if (m->getCovaNumber() == before + 1 && a->hasRange != 0) maxRange = std::max(maxRange, m->getCova(before)->getRange());
+    ctx.label("cov:" + a->key);
+  }
+  if (c.order >= 0)
+  {
+    ctx.at("Model:setDriftIRF");
+    m->setDriftIRF(c.order, c.nfex);
+  }
+  m->setMeans(toVD(c.means));
+  if (!c.covar0.empty()) m->setCovar0s(toVD(c.covar0));
+  if (maxRange <= 0) maxRange = 1.;
+  return true;
+}
+static bool cmpModel(const Model& x, const Model& y, Ctx& ctx, const ModelCase& c, double maxRange)
+{
+  const std::string cls = "Model";
+  CHECK_EQ_INT(cls, "ndim", x.getDimensionNumber(), y.getDimensionNumber());
+  CHECK_EQ_INT(cls, "nvar", x.getVariableNumber(), y.getVariableNumber());
+  CHECK_EQ_INT(cls, "ncov", x.getCovaNumber(), y.getCovaNumber());
+  CHECK_EQ_INT(cls, "ndrift", x.getDriftNumber(), y.getDriftNumber());
+  CHECK_EQ_DBL(cls, "field", x.getField(), y.getField());
+  int ndim = x.getDimensionNumber(), nvar = x.getVariableNumber();
+  for (int ic = 0; ic < x.getCovaNumber(); ic++)
+  {
+    const CovAniso *a = x.getCova(ic), *b = y.getCova(ic);
+    CHECK_EQ_INT(cls, "cov-type", a->getType().getValue(), b->getType().getValue());
+    CHECK_EQ_DBL(cls, "cov-param", a->getParam(), b->getParam());
+    CHECK_EQ_DBL(cls, "cov-range", a->getRange(), b->getRange());
+    CHECK_EQ_INT(cls, "cov-flag-aniso", a->getFlagAniso(), b->getFlagAniso());
+    if (a->hasRange() != 0)
+    {
+      VectorDouble ra = a->getRanges(), rb = b->getRanges();
+      // ranges are stored as (largest range, ratios): two roundings of 15 digits
+      if (!sameVecD(cls, "cov-ranges", ra, rb, ctx, ":get:", 2e-14)) return false;
+      if (a->getFlagAniso())
+      {
+        CHECK_EQ_INT(cls, "cov-flag-rotation", a->getFlagRotation(), b->getFlagRotation());
+        for (int i = 0; i < ndim; i++)
+          for (int j = 0; j < ndim; j++)
+            if (std::fabs(a->getAnisoRotMat(i, j) - b->getAnisoRotMat(i, j)) > 2e-15)
+            {
+              ctx.fail(cls + ":get:cov-rotmat", fmt("structure %d rotation (%d,%d): %.17g before, %.17g after reload", ic, i, j, a->getAnisoRotMat(i, j), b->getAnisoRotMat(i, j)));
+              return false;
+            }
+      }
+    }
+    for (int i = 0; i < nvar; i++)
+      for (int j = 0; j < nvar; j++) CHECK_EQ_DBL(cls, "sill", x.getSill(ic, i, j), y.getSill(ic, i, j));
+  }
+  for (int il = 0; il < x.getDriftNumber(); il++)
+    if (x.getDrift(il)->getDriftName() != y.getDrift(il)->getDriftName())
+    {
+      ctx.fail(cls + ":get:drift-name", "drift " + fmt("%d", il) + ": '" + x.getDrift(il)->getDriftName() + "' before, '" + y.getDrift(il)->getDriftName() + "' after reload");
+      return false;
+    }
+  if (x.getDriftNumber() <= 0) // the format stores the means only when there is no drift
+    for (int i = 0; i < nvar; i++) CHECK_EQ_DBL(cls, "mean", x.getMean(i), y.getMean(i));
+  for (int i = 0; i < nvar; i++)
+    for (int j = 0; j < nvar; j++) CHECK_EQ_DBL(cls, "covar0", x.getCovar0(i, j), y.getCovar0(i, j));
+
+  // behaviour: covariance at generated lags, drift functions at generated points
+  if (x.getCovaNumber() > 0)
+  {
+    double smax = 0;
+    for (int ic = 0; ic < x.getCovaNumber(); ic++)
+      for (int i = 0; i < nvar; i++) smax = std::max(smax, std::fabs(x.getSill(ic, i, i)));
+    double minRange = 1e300;
+    for (int ic = 0; ic < x.getCovaNumber(); ic++)
+      if (x.getCova(ic)->hasRange() != 0)
+        for (double r : x.getCova(ic)->getRanges()) minRange = std::min(minRange, r);
+    int nq = (int)c.lags.size() / ndim;
+    for (int q = 0; q < nq; q++)
+    {
+      VectorDouble d;
+      double hh = 0;
+      for (int k = 0; k < ndim; k++) { d.push_back(c.lags[(size_t)(q * ndim + k)] * maxRange); hh += d.back() * d.back(); }
+      // conditioning of the query: a relative change e of a range moves rho(h/a) by about e * (h/a) * |rho'|
+      double cond = 1. + std::sqrt(hh) / minRange;
+      for (int i = 0; i < nvar; i++)
+        for (int j = 0; j < nvar; j++)
+        {
+          double a = 0, b = 0;
+          // an evaluation which the original object itself refuses (special functions out of range) is not a reload question
+          try { a = x.evalIvarIpas(1., d, i, j); } catch (const std::exception&) { ctx.label("query-refused-by-original"); continue; }
+          b = y.evalIvarIpas(1., d, i, j);
+          // values may be differences of large terms (generalised covariances): 1e-11 of the total sill
+          if (!eqv(a, b, 1e-11) && !(std::fabs(a - b) <= 1e-11 * cond * smax))
+          {
+            ctx.fail(cls + ":query:covariance", fmt("C_%d%d(lag %d) = %.17g before, %.17g after reload", i, j, q, a, b));
+            return false;
+          }
+        }
+    }
+  }
+  if (x.getDriftNumber() > 0)
+  {
+    int nfex = x.getExternalDriftNumber();
+    int np = 3;
+    VectorDouble tab;
+    VectorString names, locs;
+    for (int k = 0; k < ndim + nfex; k++)
+    {
+      for (int p = 0; p < np; p++) tab.push_back(0.25 + 1.5 * p + 0.375 * k * (p + 1));
+      names.push_back(fmt("c%d", k));
+      locs.push_back(k < ndim ? fmt("x%d", k + 1) : fmt("f%d", k - ndim + 1));
+    }
+    std::unique_ptr<Db> db(Db::createFromSamples(np, ELoadBy::COLUMN, tab, names, locs, false));
+    if (db)
+      for (int il = 0; il < x.getDriftNumber(); il++)
+        for (int p = 0; p < np; p++) CHECK_QRY_DBL(cls, "drift-value", x.evalDrift(db.get(), p, il), y.evalDrift(db.get(), p, il), 1e-13);
+  }
+  return true;
+}
+static void runModel(const ModelCase& c, Ctx& ctx)
+{
+  resetGlobals(c.ndim);
+  ctx.label("class:Model");
+  ctx.label(fmt("ndim:%d", c.ndim));
+  std::unique_ptr<Model> x;
+  double maxRange = 1;
+  if (!buildModel(c, x, ctx, maxRange)) { ctx.label("build-refused"); return; }
+  bool rot = false, aniso = false;
+  for (int ic = 0; ic < x->getCovaNumber(); ic++)
+  {
+    aniso = aniso || x->getCova(ic)->getFlagAniso();
+    rot = rot || (x->getCova(ic)->getFlagAniso() && x->getCova(ic)->getFlagRotation());
+  }
+  ctx.label(rot ? "aniso:rotated" : (aniso ? "aniso:yes" : "aniso:no"));
+  ctx.label(x->getDriftNumber() > 0 ? "drift:yes" : "drift:no");
+  bool ok = roundTrip<Model>("Model", "Model", "nf_Model", *x, []() { return new Model(); },
+                             [](const std::string& p) { return Model::createFromNF(p, false); },
+                             [&](const Model& a, const Model& b, Ctx& cx) { return cmpModel(a, b, cx, c, maxRange); }, c.fo, ctx);
+  if (!ok) return;
+  ctx.nontrivial((c.ndim >= 2 || c.nvar >= 2 || x->getCovaNumber() >= 2) && (aniso || x->getDriftNumber() > 0));
+  Hash h;
+  h.add(c.ndim).add(c.nvar).add(c.order).add(c.nfex).add(c.fo.mode);
+  for (int ic = 0; ic < x->getCovaNumber(); ic++)
+  {
+    h.add(x->getCova(ic)->getType().getValue()).addq(x->getCova(ic)->getRange()).addq(x->getCova(ic)->getParam());
+    h.add((int)x->getCova(ic)->getFlagAniso()).add((int)x->getCova(ic)->getFlagRotation());
+  }
+  ctx.sig = h.h;
+}
+VERIF_SUB(model, ModelCase, genModel, runModel);
 
 VERIF_MAIN()
